@@ -125,7 +125,84 @@ theorem innermost_argument_wins (g : Env) (inner : Level) (outer : List Level)
   have hinv := (after_inv g (inner :: outer) hwf).1 inner.sp k
   simp [exportedLookup, hinv, argOf_cons_some inner outer k a ha, hv, Option.orElse]
 
+/-! ## 3. how a reference value is written (`ParentTranslator.ref_value`) -/
+
+/-- **A source literal is written for exactly the values whose type IS a literal type.**
+Instances of strict subclasses (whatever their bases) never take the literal branch. -/
+theorem literal_iff_exact_type (v : PyVal) :
+    refValue Generated.exportLiteralTest Generated.exportLiteralTypes v Generated.exportRefValueOrder = .literal
+      ↔ (v.iface = false ∧ Generated.exportLiteralTypes.contains v.ty = true) := by
+  rw [refValue_generated]
+  cases v.iface <;> cases v.valid <;> cases Generated.exportLiteralTypes.contains v.ty <;>
+    cases v.sysmod <;> cases v.iospec <;> simp
+
+/-- an instance of a subclass of a literal type (an enum member, a numpy scalar, a user-defined
+`float`) that is neither a modelx object, a module nor IO data is pickled -/
+theorem subclass_instance_is_pickled (v : PyVal)
+    (hi : v.iface = false) (hm : v.sysmod = false) (ho : v.iospec = false)
+    (ht : Generated.exportLiteralTypes.contains v.ty = false) :
+    refValue Generated.exportLiteralTest Generated.exportLiteralTypes v Generated.exportRefValueOrder = .pickle := by
+  rw [refValue_generated]
+  simp only [hi, hm, ho, ht, Bool.false_eq_true, ↓reduceIte]
+
+/-- **The imported package binds a value of the same exact type and payload (partial).**  For
+every value that is not an invalidated modelx object - unless it is a value of a literal type
+whose `repr` is not a literal (the floats nan, inf, -inf). -/
+theorem ref_value_faithful_partial (v : PyVal) (hv : v.iface = true → v.valid = true)
+    (h : ¬ LiteralReprNotExpr Generated.exportLiteralTypes v) :
+    readBack Generated.exportLiteralTypes
+      (refValue Generated.exportLiteralTest Generated.exportLiteralTypes v Generated.exportRefValueOrder) v
+      = some (v.ty, v.payload) := by
+  rw [refValue_generated]
+  unfold LiteralReprNotExpr at h
+  cases hi : v.iface
+  · cases hl : Generated.exportLiteralTypes.contains v.ty
+    · cases v.sysmod <;> cases v.iospec <;> simp [readBack]
+    · cases hr : v.reprEvaluates
+      · exact absurd ⟨hl, hr⟩ h
+      · simp only [Bool.false_eq_true, ↓reduceIte, readBack, hl, hr]
+  · simp [hv hi, readBack]
+
+/-- The full statement is false: `float('nan')` is of a literal type, its `repr` is the name
+`nan`, and the generated module does not import (known finding C15-nonfinite-float-ref). -/
+theorem ref_value_full_statement_fails :
+    ¬ ∀ (v : PyVal), (v.iface = true → v.valid = true) →
+      readBack Generated.exportLiteralTypes
+        (refValue Generated.exportLiteralTest Generated.exportLiteralTypes v Generated.exportRefValueOrder) v
+        = some (v.ty, v.payload) := by
+  intro h
+  have := h { ty := "float", bases := ["object"], reprEvaluates := false } (by simp)
+  revert this
+  decide
+
 /-! ## Non-vacuity -/
+
+/-- `True` is written as a literal although `bool` derives from `int` (its exact type is listed);
+`HTTPStatus.NOT_FOUND` (an `int` through `IntEnum`), `numpy.float64(2.5)` (a `float`) and a user
+`Percent(float)` are pickled; `numpy.int64(7)` (no literal base at all) is pickled; `math` is
+imported. -/
+example :
+    ([ { ty := "bool", bases := ["int", "object"] },
+       { ty := "http.HTTPStatus", bases := ["enum.IntEnum", "int", "enum.ReprEnum", "enum.Enum", "object"] },
+       { ty := "numpy.float64", bases := ["numpy.floating", "numpy.inexact", "numpy.number", "numpy.generic", "float", "object"] },
+       { ty := "c15_usertypes.Percent", bases := ["float", "object"] },
+       { ty := "numpy.int64", bases := ["numpy.signedinteger", "numpy.integer", "numpy.number", "numpy.generic", "object"] },
+       { ty := "module", bases := ["object"], sysmod := true } ] : List PyVal).map
+      (fun v => refValue Generated.exportLiteralTest Generated.exportLiteralTypes v Generated.exportRefValueOrder)
+    = [.literal, .pickle, .pickle, .pickle, .pickle, .importModule] := by decide
+
+/-- with `isinstance` in place of the exact type test (seeded change C15-mutC) the enum member is
+written as a literal, and what comes back is not the value: the module does not import when the
+`repr` is not an expression, and a plain `float` replaces a `Percent` when it is inherited -/
+example :
+    let st : PyVal := { ty := "http.HTTPStatus", bases := ["enum.IntEnum", "int", "object"], reprInherited := false }
+    let pc : PyVal := { ty := "c15_usertypes.Percent", bases := ["float", "object"], payload := 5 }
+    (refValue "isinstance" Generated.exportLiteralTypes st Generated.exportRefValueOrder,
+     readBack Generated.exportLiteralTypes .literal st,
+     refValue "isinstance" Generated.exportLiteralTypes pc Generated.exportRefValueOrder,
+     readBack Generated.exportLiteralTypes .literal pc)
+    = (.literal, none, .literal, some ("float", 5)) := by decide
+
 
 /-- `len` is a reference, `max` a cells, `sum` nothing: two rewritten, one kept. -/
 example :
